@@ -120,6 +120,7 @@ contract(
     ghost={'stream': custom(ghost_stream), 'pos': int_(0), 'unpacked': const(0)},
     callees={
         'self._api.get': returns_fresh('bool', label='api_flag'),
+        'self.peer.stats.get': returns_fresh('int', lo=0, label='counter'),
         'self.peer.reactor.processes.notification': noop,
         'self.peer.reactor.processes.packets': noop,
         'self.peer.reactor.processes.message': noop,
